@@ -3,9 +3,10 @@
 applying it to /repo and undoing it straight afterwards; keeps the change under /verif/seeded/<ID>-m<k>/."""
 import sys, os, subprocess, json, shutil, glob, re
 ID = sys.argv[1]; extra = sys.argv[2:]
+R = os.environ.get('SEED_ROUND', '')
 tier = os.environ.get('SEED_TIER', 'quick')
-conf = open(f'/tmp/seed/confirm-{ID}.txt').read() if os.path.exists(f'/tmp/seed/confirm-{ID}.txt') else ''
-for m in sorted(d for d in glob.glob(f'/tmp/seed/out-{ID}/m*') if os.path.isdir(d)):
+conf = open(f'/tmp/seed/confirm{R}-{ID}.txt').read() if os.path.exists(f'/tmp/seed/confirm{R}-{ID}.txt') else ''
+for m in sorted(d for d in glob.glob(f'/tmp/seed/out{R}-{ID}/m*') if os.path.isdir(d)):
     k = os.path.basename(m)
     sec = conf.split(f'== {ID} {k}')[1].split('== ')[0] if f'== {ID} {k}' in conf else ''
     suite_ok = bool(re.search(r'suite: \d+ passed 0 failed ; build errors: 0', sec))
@@ -30,7 +31,7 @@ for m in sorted(d for d in glob.glob(f'/tmp/seed/out-{ID}/m*') if os.path.isdir(
                 except Exception as e: pass
     finally:
         subprocess.run(['git', '-C', '/repo', 'checkout', '--', '.'])
-    dest = f'/verif/seeded/{ID}-{k}'
+    dest = f'/verif/seeded/{ID}-{k}' if not R else f'/verif/seeded/{ID}-r{R}{k}'
     os.makedirs(dest, exist_ok=True)
     for f in os.listdir(m):
         if f.startswith('demo') or f == 'patch.diff':
